@@ -418,3 +418,11 @@ def toposhuffle(rng, ops, keep_first=2, strength=1.0):
         done.add(i)
         remaining.remove(i)
     return out
+
+
+def noise_file(rng, fid='noise', px='nz_', path='noise.dlis'):
+    """A small other file built and written earlier in the same process (another record length, payloads, data)."""
+    ns = Spec(rng, fid=fid, px=px, client=9)
+    simple_file(rng, spec=ns, mrl=record_length(rng, small=0.7), n_lf=rng.choice([1, 1, 2]), max_width=3, frames=1,
+                nofmt=rng.random() < 0.6, tiny_ok=True)
+    return ns.ops + [write_op(ns, path=path, ocs=rng.choice([ns.mrl, ns.mrl + 40, 1 << 20]))]
